@@ -69,6 +69,9 @@ def run(F, req):
         try:
             obj = build(F, fmt, spec)
             r["before"] = state_of(fmt, obj)
+            if fmt in ("rpms", "modules", "extra_files"):
+                import c08_manifests
+                r["content"] = c08_manifests.content_key(fmt, obj)
             for i in range(n):
                 t = dump(F, fmt, obj, mv)
                 r["sha"].append(sha(t))
